@@ -234,6 +234,10 @@ class RepSim:
         script = self.case.get("tasks", [])
         dur, reason = script[n] if n < len(script) else (1.0, "Success")
         self.launches.append((n, self.now_s()))
+        delays = self.case.get("submit_delays") or []
+        if n < len(delays) and delays[n] > 0:
+            # a slow submission (queueing backend): external events may arrive while the call is in progress
+            self.advance_until(self.now_s() + float(delays[n]))
         if reason == "LaunchError":
             import experiment.runtime.errors
             raise experiment.runtime.errors.JobLaunchError("scripted", OSError("scripted"))
